@@ -58,7 +58,7 @@ theorem idcStarO_step (hk : SubsetOrder kordf) (hord : PermOrder ordf) (hG : G.W
         firstExchangeable cf (newOutcomesAndConditions kordf nev O C).fst.keys
           (newOutcomesAndConditions kordf nev O C).snd.keys = .ok (some c) ∧
         (newOutcomesAndConditions kordf nev O C).snd.get? c = some val ∧
-        exchangeOutcomes cf (newOutcomesAndConditions kordf nev O C).fst c val = .ok O' ∧
+        exchangeStep cf (newOutcomesAndConditions kordf nev O C).fst c val = .ok (some O') ∧
         C' = (newOutcomesAndConditions kordf nev O C).snd.filter (fun p => p.1 ≠ c)) ∧
       ∀ fuel, idcStarO ordf dordf kordf G (fuel + 1) O C = idcStarO ordf dordf kordf G fuel O' C' := by
   cases h1 : line1 (idStar ordf dordf G C) with
@@ -82,20 +82,26 @@ theorem idcStarO_step (hk : SubsetOrder kordf) (hord : PermOrder ordf) (hG : G.W
             | none =>
               left; intro fuel; unfold idcStarO; rw [h1]; simp only; rw [hcg]; simp only; rw [hf]; simp only; rw [hg]; rfl
             | some val =>
-              cases hx : exchangeOutcomes cf (newOutcomesAndConditions kordf nev O C).fst c val with
+              cases hx0 : exchangeStep cf (newOutcomesAndConditions kordf nev O C).fst c val with
               | error err =>
                 left; intro fuel; unfold idcStarO; rw [h1]; simp only; rw [hcg]; simp only; rw [hf]; simp only; rw [hg]
-                simp only; rw [hx]; rfl
-              | ok no' =>
+                simp only; rw [hx0]; rfl
+              | ok on =>
+               cases on with
+               | none =>
+                left; intro fuel; unfold idcStarO; rw [h1]; simp only; rw [hcg]; simp only; rw [hf]; simp only; rw [hg]
+                simp only; rw [hx0]; rfl
+               | some no' =>
+                have hx := exchangeStep_some _ _ _ _ _ hx0
                 right
                 set no := (newOutcomesAndConditions kordf nev O C).fst with hno
                 set nc := (newOutcomesAndConditions kordf nev O C).snd with hnc
                 refine ⟨no', nc.filter (fun p => p.1 ≠ c), ?_, ?_, ?_⟩
                 rotate_left 2
-                · refine ⟨⟨cf, nev, c, val, rfl, hf, hg, hx, rfl⟩, ?_⟩
+                · refine ⟨⟨cf, nev, c, val, rfl, hf, hg, hx0, rfl⟩, ?_⟩
                   intro fuel
                   conv_lhs => rw [idcStarO]
-                  rw [h1]; simp only; rw [hcg]; simp only; rw [hf]; simp only; rw [hg]; simp only; rw [hx]
+                  rw [h1]; simp only; rw [hcg]; simp only; rw [hf]; simp only; rw [hg]; simp only; rw [hx0]
                 all_goals
                   -- the facts shared by the invariant and the measure
                   have hEnd := (Event.ofList_spec (O ++ C)).1
@@ -301,12 +307,15 @@ theorem idcStarO_mono : ∀ (fuel : Nat) (O C : Event) (r : Except Err Expr),
               | some val =>
                 rw [hg] at h
                 simp only at h ⊢
-                cases hx : exchangeOutcomes cf (newOutcomesAndConditions kordf nev O C).fst c val with
+                cases hx : exchangeStep cf (newOutcomesAndConditions kordf nev O C).fst c val with
                 | error err => rw [hx] at h; exact h
-                | ok no' =>
+                | ok on =>
                   rw [hx] at h
-                  simp only at h ⊢
-                  exact ih _ _ r h
+                  cases on with
+                  | none => exact h
+                  | some no' =>
+                    simp only at h ⊢
+                    exact ih _ _ r h
 
 theorem idcStarO_mono_le (fuel k : Nat) (O C : Event) (r : Except Err Expr)
     (h : idcStarO ordf dordf kordf G fuel O C = some r) : idcStarO ordf dordf kordf G (fuel + k) O C = some r := by
